@@ -165,5 +165,8 @@ Definition tb_eqb (a b : tb) : bool :=
 (* One traceback entry as traceback.extract_tb reports it: file, line number,
    code name, and the raw text of that line from linecache (empty if unavailable). *)
 Record live_frame := mkLive { lv_file : str; lv_lineno : N; lv_name : str; lv_raw : str }.
-(* the exception: __module__, __qualname__, __name__ of its type and str(value) *)
-Record live_exc := mkExc { ex_module : str; ex_qualname : str; ex_name : str; ex_str : str }.
+(* the exception: __module__, __qualname__, __name__ of its type; str(value) (None if
+   __str__ raised); and the text the interpreter shows for the exception alone
+   (traceback.TracebackException(...).format_exception_only(), final newline removed) *)
+Record live_exc := mkExc { ex_module : str; ex_qualname : str; ex_name : str;
+                           ex_str : option str; ex_shown : str }.
